@@ -213,6 +213,13 @@ class NumpyProxy(types.ModuleType):
     def eye(self, *a, **k):
         return self._filled(numpy.eye, *a, **k)
 
+    def common_type(self, *arrays):
+        # S11: numpy.common_type refuses object arrays; the symbolic carrier's "common type" is object
+        if any(getattr(a, "dtype", None) == object for a in arrays):
+            _used("S11:common_type(object)")
+            return numpy.object_
+        return numpy.common_type(*arrays)
+
     # S10
     def _anyall(self, conj, a, axis=None, out=None, keepdims=False, **kw):
         real = numpy.all if conj else numpy.any
@@ -372,4 +379,5 @@ def stub_list() -> List[str]:
         "S4 argsort without kind='stable' may order ties arbitrarily (fork)",
         "S7 fresh ndpoly buffers are Havoc atoms",
         "S10 numpy.any/all on object arrays merged into one disjunction per slice",
+        "S11 numpy.common_type of object arrays is object",
     ]
